@@ -155,6 +155,124 @@ func rawFamily(r *lib.Rng) ([]string, string) {
 	}
 }
 
+// ---- families with a DESUGARED specification -------------------------------------------------
+// Constructs outside the reference evaluator whose meaning can be written in the core language:
+//   a lazy formal #a        =  a memo cell [forced value thunk] made at the call site by (mk9 (fn [] EXPR)),
+//                              (force #a) = (frc9 a): evaluate the thunk, THEN store value and flag
+//                              (a failed force leaves the cell unforced: forcing again evaluates again)
+//   a macro ^(.. ~a ..)     =  the function with the same body (arguments used once, no capture)
+// The real interpreter evaluates Src, the model evaluates Prefix; a difference is a property failure
+// (role "desugar"): the twin shares the heap objects (thunks) and the macro table with the
+// interpreter that failed, so only the model can tell.
+
+type specText struct {
+	src   string
+	forms []*Node
+	rej   bool // a text that must be rejected as a whole
+}
+
+func lazyLib() []*Node {
+	return []*Node{
+		Defn("mk9", []string{"th"}, "", Arr(Bool(false), Nil(), Var("th"))),
+		Defn("frc9", []string{"c"}, "", Cond(CallN("aget", Var("c"), Int(0)), CallN("aget", Var("c"), Int(1)),
+			Let(false, []string{"v"}, []*Node{Call(CallN("aget", Var("c"), Int(2)))},
+				CallN("aset", Var("c"), Int(1), Var("v")), CallN("aset", Var("c"), Int(0), Bool(true)), Var("v")))),
+	}
+}
+func thunk(e *Node) *Node { return CallN("mk9", Fn(nil, "", e)) }
+func frc(e *Node) *Node   { return CallN("frc9", e) }
+func plus(a, b *Node) *Node { return CallN("+", a, b) }
+
+// failed redefinitions of a macro (rejected as a whole; the old macro must stay)
+var macroRedefs = []string{
+	"(defmac m9 [a] (let [q] 1))",
+	"(defmac m9 [a] (and 1 (fn)))",
+	"(def zz1 5) (defmac m9 [a] (cond (fn) 1 2))",
+	"(defmac m9 [a] (bad9 a))", // a macro used in the new body fails at expansion time
+	"(defmac m9 [a] ^(+ ~a 1) (for [1 2] 3))",
+	"(defmac m9 [a & b] (let [q 1 r] ^(+ ~a 2)))",
+}
+
+func specFamily(r *lib.Rng) ([]specText, string) {
+	n := int64(1 + r.Intn(5))
+	eff := func(e *Node) *Node { return Begin(Set("y", plus(Var("y"), Int(100))), e) }
+	effSrc := func(e string) string { return "(begin (set y (+ y 100)) " + e + ")" }
+	forms := func(fs ...*Node) []*Node { return fs }
+	switch r.Intn(9) {
+	case 0: // the thunk is stored in a global, its force fails inside the call, it is forced again later
+		return []specText{
+			{src: "(def kp nil) (def y 0) (defn lz [#a] (set kp #a) (let [v (+ 1 (force #a))] (set y v) v))",
+				forms: append(append(forms(Def("kp", Nil()), Def("y", Int(0))), lazyLib()...),
+					Defn("lz", []string{"a"}, "", Set("kp", Var("a")), Let(false, []string{"v"}, []*Node{plus(Int(1), frc(Var("a")))}, Set("y", Var("v")), Var("v"))))},
+			{src: fmt.Sprintf("(def x (lz %s))", effSrc(fmt.Sprintf("(failk %d)", n))), forms: forms(Def("x", CallN("lz", thunk(eff(failk(Int(n)))))))},
+			{src: "(force kp)", forms: forms(frc(Var("kp")))},
+			{src: "(+ (force kp) (force kp))", forms: forms(plus(frc(Var("kp")), frc(Var("kp"))))},
+		}, "lazy-global-reforce"
+	case 1: // the thunk is captured by a closure that outlives the call
+		return []specText{
+			{src: "(def y 0) (defn lz2 [#a] (fn [] (+ 1 (force #a))))",
+				forms: append(append(forms(Def("y", Int(0))), lazyLib()...), Defn("lz2", []string{"a"}, "", Fn(nil, "", plus(Int(1), frc(Var("a"))))))},
+			{src: fmt.Sprintf("(def f (lz2 %s))", effSrc(fmt.Sprintf("(failk %d)", n))), forms: forms(Def("f", CallN("lz2", thunk(eff(failk(Int(n)))))))},
+			{src: "(f)", forms: forms(CallN("f"))},
+			{src: "(f)", forms: forms(CallN("f"))},
+			{src: "(+ (f) (f))", forms: forms(plus(CallN("f"), CallN("f")))},
+		}, "lazy-closure-reforce"
+	case 2: // two lazy arguments: the first stays cached, the second failed and is evaluated again (trace counts)
+		return []specText{
+			{src: "(def kp nil) (def kq nil) (defn lz3 [#a #b] (set kp #a) (set kq #b) (+ (force #a) (force #b)))",
+				forms: append(append(forms(Def("kp", Nil()), Def("kq", Nil())), lazyLib()...),
+					Defn("lz3", []string{"a", "b"}, "", Set("kp", Var("a")), Set("kq", Var("b")), plus(frc(Var("a")), frc(Var("b")))))},
+			{src: "(def x (lz3 (trace (failk 1)) (trace (failk 2))))", forms: forms(Def("x", CallN("lz3", thunk(CallN("trace", failk(Int(1)))), thunk(CallN("trace", failk(Int(2)))))))},
+			{src: "(+ (force kp) (force kq))", forms: forms(plus(frc(Var("kp")), frc(Var("kq"))))},
+			{src: "(+ (force kq) (force kp))", forms: forms(plus(frc(Var("kq")), frc(Var("kp"))))},
+		}, "lazy-two-args"
+	case 3: // never forced inside the call; the first force (a later text) fails, then again
+		return []specText{
+			{src: "(def kp nil) (def y 0) (defn lz4 [#a] (set kp #a) 0)",
+				forms: append(append(forms(Def("kp", Nil()), Def("y", Int(0))), lazyLib()...), Defn("lz4", []string{"a"}, "", Set("kp", Var("a")), Int(0)))},
+			{src: fmt.Sprintf("(lz4 %s)", effSrc("(+ (failk 1) (failk 2))")), forms: forms(CallN("lz4", thunk(eff(plus(failk(Int(1)), failk(Int(2)))))))},
+			{src: "(force kp)", forms: forms(frc(Var("kp")))},
+			{src: "(def x (force kp))", forms: forms(Def("x", frc(Var("kp"))))},
+			{src: "(force kp)", forms: forms(frc(Var("kp")))},
+		}, "lazy-late-force"
+	case 4: // a lazy argument whose expression calls another lazy function
+		return []specText{
+			{src: "(def kp nil) (defn in9 [#b] (+ 1 (force #b))) (defn lz5 [#a] (set kp #a) (force #a))",
+				forms: append(append(forms(Def("kp", Nil())), lazyLib()...),
+					Defn("in9", []string{"b"}, "", plus(Int(1), frc(Var("b")))), Defn("lz5", []string{"a"}, "", Set("kp", Var("a")), frc(Var("a"))))},
+			{src: fmt.Sprintf("(def x (lz5 (in9 (failk %d))))", n), forms: forms(Def("x", CallN("lz5", thunk(CallN("in9", thunk(failk(Int(n))))))))},
+			{src: "(force kp)", forms: forms(frc(Var("kp")))},
+			{src: "(force kp)", forms: forms(frc(Var("kp")))},
+		}, "lazy-nested"
+	case 5, 6: // an existing macro survives a redefinition that fails to compile
+		i := r.Intn(len(macroRedefs))
+		return []specText{
+			{src: "(defmac bad9 [a] (first 5)) (defmac m9 [a] ^(+ ~a 1)) (def y (m9 (failk 1)))",
+				forms: forms(Defn("m9", []string{"a"}, "", plus(Var("a"), Int(1))), Def("y", CallN("m9", failk(Int(1)))))},
+			{src: macroRedefs[i], rej: true},
+			{src: "(m9 4)", forms: forms(CallN("m9", Int(4)))},
+			{src: "(defn f [b] (m9 b)) (f (failk 7))", forms: forms(Defn("f", []string{"b"}, "", CallN("m9", Var("b"))), CallN("f", failk(Int(7))))},
+		}, fmt.Sprintf("macro-failed-redefinition-%d", i)
+	case 7: // a successful redefinition, then a failing one: the SECOND definition stays
+		i := r.Intn(len(macroRedefs))
+		return []specText{
+			{src: "(defmac bad9 [a] (first 5)) (defmac m9 [a] ^(+ ~a 1))", forms: forms(Defn("m9", []string{"a"}, "", plus(Var("a"), Int(1))))},
+			{src: "(defmac m9 [a] ^(+ ~a 2)) (def y (m9 (failk 1)))", forms: forms(Defn("m9", []string{"a"}, "", plus(Var("a"), Int(2))), Def("y", CallN("m9", failk(Int(1)))))},
+			{src: macroRedefs[i], rej: true},
+			{src: "(m9 (failk 1))", forms: forms(CallN("m9", failk(Int(1))))},
+		}, "macro-redefinition-then-failed"
+	default: // a first definition that fails, then the real one; and a failing use at expansion time in between
+		return []specText{
+			{src: "(defmac bad9 [a] (first 5))", forms: forms(Nil())},
+			{src: "(defmac m9 [a] (let [q] 1))", rej: true},
+			{src: "(def zz1 5) (bad9 1)", rej: true},
+			{src: "(defmac m9 [a] ^(+ ~a 3)) (def y (m9 (failk 1)))", forms: forms(Defn("m9", []string{"a"}, "", plus(Var("a"), Int(3))), Def("y", CallN("m9", failk(Int(1)))))},
+			{src: "(def zz1 5) (defn f [] (bad9 2))", rej: true},
+			{src: "(m9 y)", forms: forms(CallN("m9", Var("y")))},
+		}, "macro-first-definition-fails"
+	}
+}
+
 // definedNames lists every name a program may bind globally, plus the generator's pool.
 func definedNames(p *Program) []string {
 	set := map[string]bool{"x": true, "y": true, "f": true}
@@ -212,6 +330,11 @@ var interludes = []string{
 	"(def zz1 5) #' (def zzAfter 7)",       //
 	"(def zz1 5) ~ ) (def zzAfter 7)",      // reader prefix before a closer
 	"(def zz1 5) \\ (def zzAfter 7)",       // stray backslash
+	// a failed REdefinition of a name the program may have bound: the old binding must stay
+	"(defn f [a] (let [q] 1))",
+	"(def x (fn))",
+	"(set y (or (let [q] 1) 2))",
+	"(defn f [a] 1) (def x 2) (set y 3) (defn f)",
 	// the same through the other routes into the interpreter's parser: read, source
 	"(read \"12abc (def zzAfter 7)\")",
 	"(read \") (def zzAfter 7)\")",
@@ -230,6 +353,11 @@ func writeMidTextFile() {
 // isRejectedText recognises the interlude texts (used by --replay to give them their role).
 func isRejectedText(src string) bool {
 	for _, t := range interludes {
+		if t == src {
+			return true
+		}
+	}
+	for _, t := range macroRedefs {
 		if t == src {
 			return true
 		}
